@@ -21,7 +21,9 @@ def serverFrame0 (typ svc obj act : Nat) (payload : Bytes) : String × Nat :=
       else if act == 101 then (if post then "none" else "reply:-", 1)
       else ("error:action", 0)
     else
-      if act == 100 || act == 101 then
+      if act == 81 || act == 85 then                                      -- enableStats(bool) / enableTrace(bool) of the generic object
+        if payload.length < 1 then ("error:args", 0) else (if post then "none" else "reply:-", 0)
+      else if act == 100 || act == 101 then
         match readString payload with
         | .error _ => ("error:args", 0)
         | .ok (a, _) =>
